@@ -191,7 +191,7 @@ def load_ledger(prop):
             continue
         kind, _, rest = line.partition(':')
         kind = kind.strip()
-        head, _, text = rest.partition('::')
+        head, _, text = rest.partition(' :: ')
         fields = {}
         extra = []
         for tok in head.split():
